@@ -4,7 +4,11 @@
 ROOT="$(cd "$(dirname "$0")/.." && pwd)"
 OUT=$ROOT/dev/seed-results.tsv
 : > $OUT
+# SHARD=i/n runs every n-th seed starting with the i-th (several shards can run side by side, each in its own copy of /verif)
+SI=${SHARD%/*}; SN=${SHARD#*/}; K=0
 for D in $ROOT/seeded/*/; do
+  K=$((K+1))
+  if [ -n "$SHARD" ] && [ $((K % SN)) -ne $((SI % SN)) ]; then continue; fi
   N=$(basename $D); P=$(echo $N | cut -d- -f1)
   WT=/tmp/wt-seed-$$
   git -C /repo worktree add -q --detach "$WT" HEAD || exit 2
